@@ -559,5 +559,6 @@ RULES = [
     ("C09.urcuref", lambda c, r: __import__("sa.rules.c04", fromlist=["x"]).rule_urcuref(c, r, "C09.urcuref")),   # the work queue completion (flush before destroy) is reference counted
     ("C09.rs", lambda c, r: lfht.rule_rs(c, r, "C09.rs")),   # populating / removing a level walks and edits chains inside a read-side section of the thread doing it (a section held by the dispatcher does not cover its worker threads)
     ("C09.mmcases", lambda c, r: __import__("sa.rules.lfht2", fromlist=["x"]).rule_mm_cases(c, r, "C09.mmcases")),
+    ("C09.alloc", lambda c, r: __import__("sa.rules.lfht2", fromlist=["x"]).rule_allocdiscipline(c, r, "C09.alloc")),   # memory of a table goes through its cds_lfht_alloc only
 ]
 FLOORS = {"C09.pow2": 4}
